@@ -213,7 +213,7 @@ PROPS = {
              {'name': 'image', 'sub': 'c01img', 'n': 600, 'timeout': 3000, 'per_shard': 2}]),
         'assumptions': ["the abstraction of a real image (which objects the stored offsets designate, with the lengths their own headers declare) is computed by the harness's independent decoder; the Coq predicate judges that abstraction",
                         "images below 4 GiB (RVA width of the format)"],
-        'partial': 'the builder invariant is proved for the reduced dump of MiniDump.v (thread list, application memory, memory list, exception); the other stream writers use the same primitives (C16 laws) but are not inside that model; that the predicate holds of the model image is validated at run time, not a lemma',
+        'partial': 'the whole-image theorems decide the layout for every content; the content itself (which threads, which bytes, which names) is the business of C04-C08, C15, C18; images of 4 GiB and more are outside the directory theorem (the format stores 32-bit offsets)',
     },
     'C13': {
         'abi_module': 'AbiC13',
